@@ -27,7 +27,7 @@ func init() {
 				"a value implementing error (Template.recover does e.(error)). (C02.errs) no error returned to parser code is dropped. (C02.eof) every lexer loop consumes input on each round and has " +
 				"an exit for end of input. (C02.struct) a missing {{end}} (EOF inside itemList) and a surplus {{end}}/{{else}}/{{content}} at top level reach a no-return error, unexpected() " +
 				"reports late extends/import, and action() accepts neither. (C02.drain) Set.parse defers Template.recover before the lexer goroutine starts, recover drains the lexer before dropping " +
-				"it, the goroutine closes its channel on every exit, and a state function only ends the scan through errorf or after emitting EOF. (C02.index, continued) the node constructors (constructors.go) are covered too; the named non-emptiness invariants cover index 0 only. (C02.width, continued) next() sets width to exactly what it consumed on every path (0 at the end of the input). (C02.errfmt) every printf-like call of the module (fmt's and the module's own wrappers, found by what they forward their format to) passes as format a constant, the caller's own format parameter, or a string built by Sprintf from a constant format whose string operands are that parameter or have their '%' doubled — a template's name or source never acts as a format.",
+				"it, the goroutine closes its channel on every exit, and a state function only ends the scan through errorf or after emitting EOF. (C02.index, continued) the node constructors (constructors.go) are covered too; the named non-emptiness invariants cover index 0 only. (C02.width, continued) next() sets width to exactly what it consumed on every path (0 at the end of the input). (C02.errfmt) every printf-like call of the module (fmt's and the module's own wrappers, found by what they forward their format to) passes as format a constant, the caller's own format parameter, or a string built by Sprintf from a constant format whose string operands are that parameter or have their '%' doubled — a template's name or source never acts as a format. (C02.drain receiver-bound) wherever a method is deferred on a local pointer variable (`defer t.recover(&err)`), the variable has been assigned on every path to the defer statement: the receiver is evaluated when the defer statement runs, and a handler running on a nil template cannot drain the lexer it was meant to release.",
 			NotDecided:  "absence of other runtime panics (index/slice arithmetic in lexText/lexLeftDelim/lexRightDelim); termination across state transitions; unbounded recursion on cyclic extends; error message contents.",
 			Assumptions: []string{"character-class predicates (isSpace, isAlphaNumeric, strings.IndexRune(valid, r) >= 0) are false for eof (-1)"},
 			Trusted:     commonTrusted,
@@ -69,6 +69,7 @@ func runC02(c *an.Ctx) {
 	c02next(c)
 	c02parserLoops(c)
 	c02drainAgrees(c)
+	c02deferReceiver(c)
 }
 
 // ------------------------------------------------------------------------------------------- C02.width
